@@ -44,10 +44,13 @@ var (
 	verifCurKey      []byte
 	verifDecodeFails bool
 	verifDecodeCalls int
+	verifCurSecretText string
 )
 
 func verifStub_DecodeSecret(secret string) ([]byte, error) {
 	verifDecodeCalls++
+	// the entry point hands its secret argument to the decoder unchanged
+	verifAssert(verifStrEq(secret, verifCurSecretText), "secret-text-passed-to-decoder-unchanged")
 	if verifDecodeFails {
 		return nil, verifErrStub
 	}
@@ -66,11 +69,11 @@ func verifSecretFor(key []byte, fails bool) string {
 	verifCurKey = key
 	verifDecodeFails = fails
 	verifDecodeCalls = 0
+	verifCurSecretText = verifEnc32(key)
 	if fails {
-		return "!not*base32!"
+		verifCurSecretText = "!not*base32!"
+	} else if verifSymbolic() {
+		verifCurSecretText = "SYMBOLIC-TEXT-OF-THE-SECRET"
 	}
-	if verifSymbolic() {
-		return "SYMBOLIC"
-	}
-	return verifEnc32(key)
+	return verifCurSecretText
 }
